@@ -76,7 +76,7 @@ RULE = (
     "message) or a reference resolved from the isolated replays (the reply / the ':'-joined transcript of an earlier conversation); "
     "optional supplied history: user/assistant/context messages, or (2/3 of the later conversations) the transcript of an earlier "
     "conversation re-spelled - adjacent messages merged with ':', roles swapped, context turned into its JSON text, cut; optional "
-    "per-conversation generation options (none at all, or llm_params temperature/max_tokens and/or log), streaming requests; call "
+    "per-conversation generation options (none at all, or llm_params temperature/max_tokens and/or log), in a third of the sequential cases one conversation is the twin of its predecessor (same messages, different options incl. rails switches), streaming requests; call "
     "mode sync generate / one run_until_complete(generate_async) per turn / ALL turns awaited one after the other inside ONE coroutine "
     "(shared context, ~50%); a generated interleaving of all turns on ONE shared instance, full message histories passed every turn. Each conversation is also replayed alone on a fresh instance; returned value (message, log, streamed "
     "chunks), per-turn prompt multiset and LLM parameters at call start/end must be equal, and the LLM object's parameters must be the "
@@ -628,6 +628,8 @@ def _conv_options(spec):
         opts["llm_params"] = lp
     if spec.get("log"):
         opts["log"] = {"activated_rails": True, "llm_calls": True, "colang_history": spec["log"] == "history"}
+    if spec.get("rails_off"):
+        opts["rails"] = {spec["rails_off"]: False}
     return opts or None
 
 
@@ -720,6 +722,9 @@ def run_seq(case, problems):
             labels.append("llm_params-option")
     if len({json.dumps(c.options, sort_keys=True) for c in convs}) > 1:
         labels.append("conversations-with-different-options")
+        specs = case["convs"]
+        if any(a is not b and a["init"] == b["init"] and a["users"] == b["users"] and _conv_options(a) != _conv_options(b) for a in specs for b in specs):
+            labels.append("same-messages-different-options")
         if any(c.options is None for c in convs):
             labels.append("some-conversation-without-options")
     model = CacheModel()
@@ -1109,6 +1114,16 @@ def _seq_case(draw, llms=None):
                 "mt": draw(st.sampled_from([None, None, None, None, 16])),
             }
         )
+    if draw(st.sampled_from([True, False, False])):
+        # twins: the same messages under DIFFERENT generation options are different conversations (the options are part of
+        # what the instance is given); the twin is scheduled around its sibling's turns
+        j = draw(st.integers(0, n - 2))
+        twin = json.loads(json.dumps(convs[j]))
+        alt = draw(st.sampled_from([{"temp": 0.7}, {"temp": 1.1, "mt": 32}, {"log": True}, {"rails_off": "input"}, {"rails_off": "output"}, {"rails_off": "dialog"}]))
+        if all(twin.get(k) == v for k, v in alt.items()):
+            alt = {"temp": 0.35}
+        twin.update(alt)
+        convs[j + 1] = twin
     total = sum(len(c["users"]) for c in convs)
     order = draw(st.lists(st.integers(0, n - 1), min_size=total, max_size=total))
     return {"leg": "seq", "config": cfg, "llm": draw(st.sampled_from(llms or LLMS)), "api": draw(st.sampled_from(["sync", "async", "onecoro", "onecoro"])), "convs": convs, "order": order}
